@@ -35,7 +35,14 @@ RULE = ("model tie: Metadata._check_parts vs the extracted safe_comp on every ge
         "same as directory keys of v2 / hybrid trees written key by key (hostile key after / before the well-formed sibling); `name`: a "
         "benign torrent 'sub' processed before / after a torrent named 'sub/../../escaped' (v1, v2, hybrid).  A candidate file with "
         "the right size and hash, named after the last element (or its base name), is present in the search directory so that the "
-        "copy is attempted whenever the element list is let through.  Everything lives in a sandbox root whose destination is 12 "
+        "copy is attempted whenever the element list is let through.  The destination's SURROUNDINGS and SPELLING: beside the "
+        "destination 'dest' lie directories whose names extend / end with its name ('dest.old', 'dest-incoming', 'dest2', 'my-dest', with "
+        "shorter victims inside); metafiles (v1, v2, hybrid) that walk up with '..' and re-enter such a neighbour -- as separate elements, "
+        "inside one element, through the name ('..', '.', '../dest.old') -- with the usual search directory, the neighbour itself or "
+        "another neighbour as the search directory; WELL-FORMED metafiles (single- and multi-file) whose name is the end / the beginning "
+        "/ the whole of the destination's last component ('t', 'est', 'dest' into 'dest'; 'dest', 'my' into 'my-dest'; 'old', 'dest' "
+        "into 'dest.old'); each with the destination spelled absolute, with a trailing separator, relative, './x', '../x' from inside a "
+        "neighbour, '.' from inside, through the Assembler API and the command line.  Everything lives in a sandbox root whose destination is 12 "
         "levels deep, with victim files beside and above the destination; everything in the sandbox outside the destination is "
         "snapshotted (names, sizes, sha256, modes, mtimes) before and after each rebuild and must be identical; every mutating audit "
         "event must target the destination (the runner additionally refuses mutations outside the sandbox).  Refusal with any "
@@ -48,7 +55,14 @@ PL = 16384
 DATA = bytes((i * 13 + 5) % 256 for i in range(100))
 DEPTH = 12
 WORKERS = 4
-CANDIDATES = ["a", "b", "..x", "abs", "f", "n", "x", "evil.txt", "é"]
+CANDIDATES = ["a", "b", "..x", "abs", "f", "n", "x", "evil.txt", "é", "f.bin",
+              # single-file torrents called like (a part of) the destination's last component
+              "t", "est", "de", "dest", "my", "my-dest", "-dest", "old", ".old", "dest.old"]
+# the destination's SURROUNDINGS: directories beside the destination whose names extend / end with the destination's name; each
+# holds a candidate (have/f.bin, for the cases in which it is the search directory) and shorter victims (a, sub/f.bin)
+NEIGHBOURS = ["dest.old", "dest-incoming", "dest2", "my-dest"]
+SPELLINGS = ["absolute", "absolute with a trailing separator", "relative", "relative with './'", "relative with a trailing separator",
+             "relative '../<destination>' from a neighbour", "'.' from inside the destination"]
 
 
 def comp_class(c):
@@ -83,6 +97,14 @@ class Sandbox:
                 for n in ("a", "..x", "b"):
                     with open(os.path.join(p, n), "wb") as fd:
                         fd.write(b"victim")
+        self.parent = os.path.dirname(self.dest)
+        self.parent_rel = "/".join(levels)
+        for nb in NEIGHBOURS:
+            os.makedirs(os.path.join(self.parent, nb, "sub"))
+            os.makedirs(os.path.join(self.parent, nb, "have"))
+            for rel, data in (("a", b"victim"), ("sub/f.bin", b"victim"), ("have/f.bin", DATA)):
+                with open(os.path.join(self.parent, nb, rel), "wb") as fd:
+                    fd.write(data)
         os.makedirs(os.path.join(r, "abs"))
         with open(os.path.join(r, "abs", "a"), "wb") as fd:
             fd.write(b"victim")
@@ -92,9 +114,25 @@ class Sandbox:
     def abs_comp(self):
         return os.path.join(self.root, "abs")
 
-    def outside(self):
-        pre = self.dest_rel + "/"
-        return {k: v for k, v in rc.snapshot(self.root).items() if k != self.dest_rel and not k.startswith(pre)}
+    def outside(self, leaf="dest"):
+        """everything in the sandbox that is not the destination (the directory `leaf` beside / equal to 'dest') or below it"""
+        dest_rel = self.parent_rel + "/" + leaf
+        pre = dest_rel + "/"
+        return {k: v for k, v in rc.snapshot(self.root).items() if k != dest_rel and not k.startswith(pre)}
+
+    def job_paths(self, c):
+        """(destination directory, destination as spelled, working directory, search directories) of a case"""
+        leaf = c.get("dest_leaf") or "dest"
+        dest = os.path.join(self.parent, leaf)
+        sp = c.get("dest_spelling") or "absolute"
+        other = next(n for n in NEIGHBOURS if n != leaf)
+        arg, cwd = {"absolute": (dest, None), "absolute with a trailing separator": (dest + os.sep, None),
+                    "relative": (leaf, self.parent), "relative with './'": ("./" + leaf, self.parent),
+                    "relative with a trailing separator": (leaf + os.sep, self.parent),
+                    "relative '../<destination>' from a neighbour": ("../" + leaf, os.path.join(self.parent, other)),
+                    "'.' from inside the destination": (".", dest)}[sp]
+        search = [os.path.join(self.parent, c["search_leaf"])] if c.get("search_leaf") else [os.path.join(self.root, "search")]
+        return dest, arg, cwd, search
 
     def reset_dest(self):
         shutil.rmtree(self.dest, ignore_errors=True)
@@ -188,6 +226,7 @@ def gen_cases(tier, absc, rng):
                     "raw": oracle.ref_metafile("n", [(tuple(seq), DATA)], PL, 1), "name": "n", "path": seq, "depth": len(seq),
                     "benign": oracle.ref_metafile("good", [(("a",), DATA), (("sub", "x"), DATA)], PL, 1)})
     out += context_cases(tier, absc)
+    out += surroundings_cases(tier)
     rng.shuffle(out)
     return out
 
@@ -284,6 +323,73 @@ def context_cases(tier, absc):
     return out
 
 
+def surroundings_cases(tier):
+    """
+    The destination's SURROUNDINGS and SPELLING.  Beside the destination 'dest' lie directories whose names EXTEND its name
+    ('dest.old', 'dest-incoming', 'dest2') or END with it ('my-dest'); each holds shorter victims (a, sub/f.bin).
+    (1) metafiles that walk up with '..' and re-enter such a neighbour -- as separate elements, inside one element, through the
+    name ('..', '.', '../<neighbour>') -- v1 / v2 / hybrid; the search directory is the usual one, the neighbour itself or another
+    neighbour.  (2) well-formed metafiles (multi-file and single-file; v1 / v2 / hybrid) whose NAME is the end / the beginning /
+    the whole of the destination's last component ('t', 'est', 'dest' for 'dest'; 'dest', 'my' for 'my-dest'; 'old', 'dest' for
+    'dest.old'), the destination being 'dest', 'my-dest' or 'dest.old'.  Every case with the destination spelled absolute,
+    absolute or relative with a trailing separator, relative, './x', '../x' from inside a neighbour, '.' from inside; Assembler
+    API and command line (quick: the combinations in rotation; thorough: every walk with every search directory and spelling).
+    Judge as everywhere: the sandbox outside the destination is unchanged and every mutation targets the destination.
+    """
+    quick = tier == "quick"
+    out = []
+    k = 0
+    for nb in NEIGHBOURS:
+        walks = [("n", ("..", "..", nb, "sub", "f.bin")), ("n", ("..", "..", nb, "new", "f.bin")), ("..", (nb, "sub", "f.bin")),
+                 ("n", ("../../" + nb, "sub", "f.bin")), ("n", ("../../" + nb + "/sub/f.bin",)), ("../" + nb, ("sub", "f.bin")),
+                 (".", ("..", nb, "sub", "f.bin")), ("n", ("x", "..", "..", "..", nb, "f.bin"))]
+        others = [n for n in NEIGHBOURS if n != nb]
+        for name, path in walks:
+            for version in (1, 2, 3):
+                searches = [None, nb, others[k % len(others)]]
+                combos = [(searches[k % 3], SPELLINGS[k % len(SPELLINGS)])] if quick else \
+                    [(s, SPELLINGS[(k + i + 3 * j) % len(SPELLINGS)]) for i, s in enumerate(searches) for j in range(3)]
+                for sl, sp in combos:
+                    k += 1
+                    mode = "cli" if k % 2 else "api"
+                    try:
+                        raw = oracle.ref_metafile(name, [(path, DATA)], PL, version)
+                    except Exception:  # noqa
+                        continue
+                    out.append({"kind": "neighbour", "raw": raw, "name": name, "path": list(path), "depth": len(path), "v2": version != 1,
+                                "search_leaf": sl, "dest_spelling": sp, "mode": mode,
+                                "label": f"v{version} name {name!r} path {list(path)}: walks up and re-enters the directory {nb!r} beside the "
+                                         f"destination 'dest' (search directory: {sl or 'the usual one'}; destination spelled {sp}; {mode})",
+                                "classes": ["surroundings: walk into a neighbour whose name " + ("ends with" if nb == "my-dest" else "extends") +
+                                            " the destination's name", "surroundings: search directory " +
+                                            ("the usual one" if sl is None else "the neighbour walked into" if sl == nb else "another neighbour"),
+                                            "destination spelled " + sp]})
+    related = {"dest": ["t", "est", "de", "dest"], "my-dest": ["dest", "my", "my-dest", "t", "-dest"],
+               "dest.old": ["old", ".old", "dest", "dest.old"]}
+    for leaf, names in related.items():
+        for name in names:
+            rel = ("equals" if name == leaf else "is the end of" if leaf.endswith(name) else "is the beginning of")
+            for version in (1, 2, 3):
+                for single in (False, True):
+                    combos = [SPELLINGS[k % len(SPELLINGS)]] if quick else SPELLINGS
+                    for sp in combos:
+                        k += 1
+                        mode = "cli" if k % 2 else "api"
+                        files = [((), DATA)] if single else [(("a",), DATA), (("sub", "x"), DATA)]
+                        out.append({"kind": "dest-name", "raw": oracle.ref_metafile(name, files, PL, version, single=single),
+                                    "name": name, "path": [] if single else ["a"], "depth": 0 if single else 1, "v2": version != 1,
+                                    "dest_leaf": leaf, "dest_spelling": sp, "mode": mode,
+                                    "label": f"well-formed v{version} {'single-file' if single else 'multi-file'} torrent {name!r} rebuilt into the "
+                                             f"destination {leaf!r} (spelled {sp}; {mode})",
+                                    "classes": [f"surroundings: the torrent's name {rel} the destination's last component",
+                                                "destination spelled " + sp]})
+    return out
+
+
+def mode_of(c):
+    return c.get("mode") or ("cli" if c["index"] % 7 == 3 else "api")
+
+
 def run_shard(args):
     """runs its cases one after the other in one sandbox with one runner; returns list of result dicts"""
     shard, cases, tmp = args
@@ -303,16 +409,19 @@ def run_shard(args):
                 with open(os.path.join(meta_dir, c.get("benign_file") or "good.torrent"), "wb") as fd:
                     fd.write(c["benign"])
                 metas = [meta_dir]
-            before = sb.outside()
-            job = {"id": n, "mode": "cli" if c["index"] % 7 == 3 else "api", "metafiles": metas,
-                   "search": [os.path.join(sb.root, "search")], "dest": sb.dest, "cwd": None,
+            leaf = c.get("dest_leaf") or "dest"
+            dest, dest_arg, cwd, search = sb.job_paths(c)
+            before = sb.outside(leaf)
+            had = {k for k, v in rc.snapshot(dest).items() if v[0] == "f"}
+            job = {"id": n, "mode": mode_of(c), "metafiles": metas,
+                   "search": search, "dest": dest_arg, "cwd": cwd,
                    "order": "sorted", "sandbox": sb.root}
             rep = r.run(job)
-            after = sb.outside()
+            after = sb.outside(leaf)
             diff = rc.snap_diff(before, after)
-            inside = sorted(k for k, v in rc.snapshot(sb.dest).items() if v[0] == "f")
-            results.append({"reply": rep, "diff": diff, "inside": inside, "outside_events": rc.outside_events(rep, sb.dest)})
-            if diff or results[-1]["outside_events"]:
+            inside = sorted(k for k, v in rc.snapshot(dest).items() if v[0] == "f" and k not in had)
+            results.append({"reply": rep, "diff": diff, "inside": inside, "outside_events": rc.outside_events(rep, dest)})
+            if diff or results[-1]["outside_events"] or leaf != "dest":
                 sb.build()
             else:
                 sb.reset_dest()
@@ -360,8 +469,13 @@ def e2e(ctx, model_ok):
             r = results[c["index"]]
             rep = r["reply"]
             inp = {"metafile": c["label"], "metafile_hex": c["raw"].hex() if len(c["raw"]) < 4000 else c["raw"][:300].hex() + "...",
-                   "mode": "cli" if c["index"] % 7 == 3 else "api", "destination_depth": DEPTH,
+                   "mode": mode_of(c), "destination_depth": DEPTH,
                    "candidates_in_search_dir": CANDIDATES}
+            if c.get("dest_leaf") or c.get("dest_spelling") or c.get("search_leaf"):
+                inp.update(destination=c.get("dest_leaf") or "dest", destination_spelled=c.get("dest_spelling") or "absolute",
+                           directories_beside_the_destination=NEIGHBOURS,
+                           search_directory=("<the directory beside the destination> " + c["search_leaf"]) if c.get("search_leaf") else "<sandbox>/search")
+                inp["search_leaf"] = c.get("search_leaf")
             if c.get("benign"):       # a metafile directory: the benign metafile and its file name (m.torrent is the hostile one)
                 inp.update(benign_hex=c["benign"].hex(), benign_file=c.get("benign_file") or "good.torrent")
             if rep.get("runner_died"):
@@ -449,7 +563,9 @@ def replay(ctx, data):
     with core.Scratch("vc19r_") as tmp:
         tmp = os.path.realpath(tmp)
         os.environ["HOME"] = tmp
-        c = {"raw": bytes.fromhex(hexs), "index": 3 if inp.get("mode") == "cli" else 0, "label": inp.get("metafile")}
+        c = {"raw": bytes.fromhex(hexs), "index": 3 if inp.get("mode") == "cli" else 0, "label": inp.get("metafile"),
+             "mode": inp.get("mode"), "dest_leaf": inp.get("destination"), "dest_spelling": inp.get("destination_spelled"),
+             "search_leaf": inp.get("search_leaf")}
         if inp.get("benign_hex"):
             c.update(benign=bytes.fromhex(inp["benign_hex"]), benign_file=inp.get("benign_file"))
         res = run_shard((0, [c], tmp))[0]
